@@ -587,10 +587,16 @@ Proc(e) ==
             LET a0 == Get0(aux.dg, e.same[1], <<"?a">>)
                 b0 == Get0(aux.dg, e.same[2], <<"?b", "?">>)
                 sel == IF Has(e, "only") THEN {e.only[j] : j \in DOMAIN e.only} ELSE {}
-                a == IF sel = {} THEN a0 ELSE [j \in sel \cap DOMAIN a0 |-> a0[j]]
-                b == IF sel = {} THEN b0 ELSE [j \in sel \cap DOMAIN b0 |-> b0[j]]
+                \* ("lens": only the LENGTHS of the files are compared - C06.bounded: updates that need no new slot
+                \*  must not make a file longer)
+                lensonly == Has(e, "lens")
+                pr(x) == IF lensonly THEN [j \in DOMAIN x |-> IF Has(x[j], "len") THEN x[j].len ELSE -7] ELSE x
+                a1 == IF sel = {} THEN a0 ELSE [j \in sel \cap DOMAIN a0 |-> a0[j]]
+                b1 == IF sel = {} THEN b0 ELSE [j \in sel \cap DOMAIN b0 |-> b0[j]]
+                a == pr(a1)
+                b == pr(b1)
             IN [base EXCEPT !.fails = IF a = b \/ e.conj = "C12.stable" THEN {} ELSE
-                    IF e.conj \in {"C11.others", "C13.unchanged", "C15.bytes", "C18.equal"} THEN {e.conj} ELSE {"TOOL.bad_conj"},
+                    IF e.conj \in {"C11.others", "C13.unchanged", "C15.bytes", "C18.equal", "C06.bounded"} THEN {e.conj} ELSE {"TOOL.bad_conj"},
                             \* byte-identical re-creation of a released image is more than C12 demands (layout and
                             \* placement are documented, the order inside a chain or the choice of a free slot is not)
                             !.drift = IF a # b /\ e.conj = "C12.stable" THEN "the stored history no longer reproduces the released image byte for byte" ELSE "",
